@@ -12,6 +12,21 @@ import time
 from .engine import Ctx, HarnessError, finish, harness_main
 
 
+def _arm_watchdog(prop: str, seconds: int) -> None:
+    """Outer wall-clock guard: expiry is a harness error (exit 2, inconclusive), never a VIOLATION."""
+    import multiprocessing
+    import signal
+
+    def fire(signum, frame):
+        print(f"HARNESS ERROR: {prop}: watchdog expired after {seconds}s (inconclusive)", file=sys.stderr, flush=True)
+        for child in multiprocessing.active_children():
+            child.kill()
+        os._exit(2)
+
+    signal.signal(signal.SIGALRM, fire)
+    signal.alarm(seconds)
+
+
 def main() -> int:
     ap = argparse.ArgumentParser()
     ap.add_argument("prop")
@@ -36,6 +51,7 @@ def main() -> int:
     if args.tier not in ("quick", "thorough"):
         raise HarnessError(f"bad tier {args.tier}")
     ctx = Ctx(prop=prop, tier=args.tier, seed=seed, t0=time.time())
+    _arm_watchdog(prop, int(os.environ.get("KV_WATCHDOG_S", "1500" if args.tier == "quick" else "21600")))
     rep = mod.run(ctx)
     return finish(ctx, rep)
 
